@@ -289,13 +289,16 @@ FragKids(fm, pl) ==
 
 Root(kids) == [t |-> <<>>, body |-> <<>>, kids |-> kids, leaf |-> FALSE, large |-> FALSE, spare |-> <<>>]
 
-\* placements from a laid-out stream whose top-level boxes are lead ++ (moof mdat)*
+\* placements from a laid-out stream: the i-th moof box and the first mdat after it (top level may
+\* contain other boxes in between, e.g. free boxes inserted by layout operations)
+NthOfType(root, t, i) == LET idx == SelectSeq([j \in 1..Len(root.kids) |-> j], LAMBDA j : root.kids[j].t = t) IN idx[i]
 Placements(fm, root, lead) ==
   [i \in 1..Len(fm.frags) |->
-     LET mi == lead + 2 * i - 1                     \* index of moof i
+     LET mi == NthOfType(root, MOOF, i)
+         di == CHOOSE j \in (mi + 1)..Len(root.kids) : root.kids[j].t = MDAT /\ \A x \in (mi + 1)..(j - 1) : root.kids[x].t # MDAT
          moofStart == TopOff(root, mi)
-         payload   == TopOff(root, mi + 1) + HdrLen(root.kids[mi + 1])
-         mdatEnd   == TopOff(root, mi + 1) + NodeSize(root.kids[mi + 1])
+         payload   == TopOff(root, di) + HdrLen(root.kids[di])
+         mdatEnd   == TopOff(root, di) + NodeSize(root.kids[di])
          runStart(j) == payload + IntSum([b \in 1..(j - 1) |-> IntSum(fm.frags[i][b].sizes)])
      IN [j \in 1..Len(fm.frags[i]) |->
            CASE fm.frags[i][j].base \in {"moof", "none"} -> [base |-> <<>>, off |-> runStart(j) - moofStart]
@@ -306,6 +309,7 @@ Placements(fm, root, lead) ==
 ZeroPlacements(fm) == [i \in 1..Len(fm.frags) |-> [j \in 1..Len(fm.frags[i]) |-> [base |-> <<>>, off |-> 0]]]
 
 \* [file, init]: delivery "one" -> file = whole stream, init = <<>>; "split" -> init and segment
+FragTreeZero(fm, delivery) == Root((IF delivery = "one" THEN InitKids(fm) ELSE <<>>) \o FragKids(fm, ZeroPlacements(fm)))
 RenderFrag(fm0, delivery, ops) ==
   Let(fm0, LAMBDA fm :
   Let(IF delivery = "one" THEN InitKids(fm) ELSE <<>>, LAMBDA lead :
